@@ -18,6 +18,9 @@ import Frrs.Analyze
 import Frrs.Detect
 import Frrs.ShortHash
 import Frrs.CliValues
+import Frrs.Validate
+import Frrs.Migrate
+import Frrs.Backup
 namespace Frrs.Ops
 open Frrs Frrs.Wire
 
@@ -241,7 +244,7 @@ def dispatch (op : String) (args : List String) : Option String :=
       -- an auxiliary file the model's parsers reject = the run fails before reading the stream
       let some o := parseFOpts opts | pure "err . . ."
       let nmarks := ((kv opts "marks").bind (·.toNat?)).getD 0
-      let r := runBytes o (← decBytes stream)
+      let r := runValidated o (kv opts "nodata" == some "1") (← decBytes stream)
       let cm := commitMap (fun m => if 1 ≤ m && m ≤ nmarks then some (fakeId m) else none) r.pairs
       pure ((if r.ok then "ok " else "err ") ++ encBytes r.out ++ " " ++ encBytes cm ++ " " ++ encBytes (refMap r.refRenames))
   -- property oracles on implementation-supplied outputs
@@ -323,6 +326,14 @@ def dispatch (op : String) (args : List String) : Option String :=
   | "looksbinary", [b] => do pure (encBool (looksBinary (← decBytes b)))
   | "detect", [ms] => do pure (encList (detect (← decList ms)))
   | "needsescape", [v] => do pure (encBool (needsEscape (← decBytes v)))
+  -- migrate.rs: the plan for origin's remote-tracking refs (refs = name:id pairs)
+  | "migrate", [refs] => do
+      let plan := migratePlan (← decPairs refs)
+      pure ("C=" ++ encPairs plan.creates ++ " D=" ++ encPairs plan.deletes)
+  -- backup.rs: where the bundle goes (path = "none" | hex; isdir = the resolved path is an existing directory)
+  | "backupdest", [path, isdir] => do
+      let p ← (if path == "none" then some none else (decBytes path).map some)
+      pure (match backupDest p (← decBool isdir) with | .defaultDir => "default" | .inDir _ => "dir" | .file _ => "file")
   -- opts.rs value parsers
   | "clival", [kind, v] => do
       let b ← decBytes v
